@@ -518,6 +518,11 @@ pub fn session<E: SimEnv>(cfg: &SessionCfg, cs: &mut EnvCensus, out: &mut Sessio
                 if env.book(a).trade_vol() as u64 != s {
                     return efail(step, "step", "per_step_traded_volume", format!("asset {}: counter {} but this step's trades sum to {}", a, env.book(a).trade_vol(), s), &batch);
                 }
+                // ... and the environment's own per-step series carries exactly one entry per step, the last one for this step
+                let tv = env.series(a).trade_vols;
+                if tv.len() != step + 1 || *tv.last().unwrap() as u64 != s {
+                    return efail(step, "step", "per_step_traded_volume", format!("asset {}: after {} steps the environment's per-step traded volumes are {:?} (last {} entries shown) but this step's trades sum to {}", a, step + 1, &tv[tv.len().saturating_sub(4)..], 4, s), &batch);
+                }
             }
         }
 
